@@ -160,15 +160,18 @@ pub async fn request_certificate(
 		}
 
 		// Fetch the associated challenges
-		let current_identifier = cert.get_identifier_from_str(&auth.identifier.value)?;
+		// A wildcard authorization carries the base name and the wildcard flag (RFC 8555, 7.1.4)
+		let identifier = match auth.wildcard {
+			Some(true) => format!("*.{}", auth.identifier.value),
+			_ => auth.identifier.value.to_owned(),
+		};
+		let current_identifier = cert.get_identifier_from_str(&identifier)?;
 		let current_challenge = current_identifier.challenge;
 		for challenge in auth.challenges.iter() {
 			if current_challenge == *challenge {
 				let (proof, raw_proof) =
 					challenge.get_proof(&account_s.read().await.current_key.key)?;
 				let file_name = challenge.get_file_name();
-				let identifier = auth.identifier.value.to_owned();
-
 				// Call the challenge hook in order to complete it
 				let mut data = cert
 					.call_challenge_hooks(&file_name, &proof, raw_proof, &identifier)
